@@ -158,6 +158,40 @@ func auditCmd() int {
 		sk = append(sk, fmt.Sprintf("%s(%d)", k, n))
 	}
 	fmt.Printf("audit: %d library functions, %d sample evaluations checked against their axioms, %d contradictions; not modelled as library symbols: %s\n", len(order), checked, bad, strings.Join(sk, " "))
+	if only == "" || only == "runes" {
+		// the range-over-string model (rune_count/rune_pos/rune_val/rune_of) against real iteration, invalid UTF-8 included
+		nr := 0
+		for si, str := range []string{"", "a", "1.2", "日本1", "é", "a\xffb", "\xc3", "a\xc3", "\xe6\x97z", "x\u00e9y\U0001F600z", "\x80\x80"} {
+			g := newGen(w, nil)
+			g.needRunes()
+			sl := g.lit(str)
+			var facts []string
+			k := 0
+			for pos, r := range str {
+				facts = append(facts, fmt.Sprintf("(assert (= (rune_pos %s %d) %d))", sl, k, pos), fmt.Sprintf("(assert (= (rune_val %s %d) %d))", sl, k, r))
+				k++
+			}
+			facts = append(facts, fmt.Sprintf("(assert (= (rune_count %s) %d))", sl, k))
+			for i := 0; i < len(str); i++ {
+				ord, kk := 0, 0
+				for pos := range str {
+					if pos <= i {
+						ord = kk
+					}
+					kk++
+				}
+				facts = append(facts, fmt.Sprintf("(assert (= (rune_of %s %d) %d))", sl, i, ord), fmt.Sprintf("(assert (= (str_at %s %d) %d))", sl, i, str[i]))
+				nr++
+			}
+			file := filepath.Join(dir, fmt.Sprintf("runes.%d.smt2", si))
+			res := solve(g.script(append(facts, "(check-sat)")), file, 5*time.Second, false)
+			if res.Status == "unsat" {
+				bad++
+				fmt.Printf("AUDIT-FAIL range-over-string model contradicts real iteration of %q (script %s)\n", str, file)
+			}
+		}
+		fmt.Printf("audit: range-over-string model checked on %d byte positions\n", nr)
+	}
 	if only == "" || only == "regexp" {
 		np, ne, nb := auditRegexFacts(repoDir)
 		fmt.Printf("audit: %d regular-expression literals, %d matches checked against the derived facts, %d contradictions\n", np, ne, nb)
